@@ -193,6 +193,7 @@ func c14ExecRun(t *rapid.T) {
 	plush.CacheEnabled = false
 	plush.VerifResetCache()
 	defer func() {
+		simrt.SettleLocks() // also when a draw ends the case from inside Run: a leaked lock must not hang the clean-up
 		plush.CacheEnabled = false
 		plush.VerifResetCache()
 		simrt.SetMapOrder(simrt.Canonical, 0)
